@@ -1248,3 +1248,527 @@ Proof.
   - apply Sh_poke; assumption.
   - destruct (core_proj _ _ (poke_core cf s1)) as (C1 & _). rewrite C1. assumption.
 Qed.
+
+Lemma change_eq_dec (a b : change) : {a = b} + {a <> b}.
+Proof. decide equality; apply Z.eq_dec. Qed.
+Lemma submsg_eq_dec (a b : submsg) : {a = b} + {a <> b}.
+Proof. decide equality; try apply Z.eq_dec; try apply change_eq_dec; apply list_eq_dec; apply Z.eq_dec. Qed.
+Lemma dgram_eq_dec (a b : dgram) : {a = b} + {a <> b}.
+Proof. decide equality; [apply list_eq_dec; apply submsg_eq_dec|apply Bool.bool_dec]. Qed.
+
+(* ------------------------------------------------------------------ the healing invariant *)
+Definition hb_in_net (c : Z) (net : list dgram) : Prop := exists d f l, In d net /\ In (SHb f l c) (dg_subs d).
+Definition ack_in (wan : Z) (d : dgram) : Prop := exists b set, In (SAck b set wan) (dg_subs d).
+
+(* done, or: the newest heartbeat is on its way or processed, and once it is processed the newest
+   ACKNACK, which asks for the last sample, is on its way and not yet processed by the writer *)
+Definition GOk (s : state) (p : rproxy) (w : wproxy) : Prop :=
+  (s_last s <= wp_hr w \/ s_last s <= rp_fr p) \/
+  (0 < rp_hbc p /\
+   (wp_hb w = rp_hbc p \/ hb_in_net (rp_hbc p) (s_net s)) /\
+   (wp_hb w = rp_hbc p ->
+      rp_an p < wp_an w /\ (exists d, In d (s_net s) /\ ack_in (wp_an w) d) /\
+      (forall d b set, In d (s_net s) -> In (SAck b set (wp_an w)) (dg_subs d) -> In (s_last s) set))).
+
+Definition GInv (s : state) : Prop :=
+  forall p r w, s_rp s = Some p -> rp_rel p = true -> s_rd s = Some r -> rd_wp r = Some w -> GOk s p w.
+
+Lemma shape_one_hb d f l c f' l' c' : nshape d -> In (SHb f l c) (dg_subs d) -> In (SHb f' l' c') (dg_subs d) ->
+  f = f' /\ l = l' /\ c = c'.
+Proof.
+  intros H. destruct H; cbn; intros H1 H2;
+    repeat match goal with H : _ \/ _ |- _ => destruct H end; try contradiction; try discriminate;
+    match goal with A : SHb _ _ _ = SHb _ _ _, B : SHb _ _ _ = SHb _ _ _ |- _ => inversion A; inversion B; subst; auto end.
+Qed.
+
+Lemma shape_toR_no_ack d : nshape d -> dg_toR d = true -> forall b set c, ~ In (SAck b set c) (dg_subs d).
+Proof.
+  intros H. destruct H; cbn; intros Hd b0 set0 c0 Hin; try discriminate;
+    repeat match goal with H : _ \/ _ |- _ => destruct H end; try contradiction; discriminate.
+Qed.
+
+Lemma shape_toW_no_hb d : nshape d -> dg_toR d = false -> forall f l c, ~ In (SHb f l c) (dg_subs d).
+Proof.
+  intros H. destruct H; cbn; intros Hd f0 l0 c0 Hin; try discriminate;
+    repeat match goal with H : _ \/ _ |- _ => destruct H end; try contradiction; discriminate.
+Qed.
+
+Lemma in_remove_nth_other {A} (x y : A) i l : nth_error l i = Some y -> In x l -> x <> y -> In x (remove_nth i l).
+Proof.
+  revert i; induction l as [|a t IH]; intros i E Hin Hne; [contradiction|].
+  destruct i; cbn in *.
+  - inversion E; subst. destruct Hin; [congruence|assumption].
+  - destruct Hin as [->|Hin]; [left; reflexivity|right; eauto].
+Qed.
+
+Lemma has_hb_in c last out net : has_hb c last out -> (forall d, In d out -> In d net) -> hb_in_net c net.
+Proof. intros [d [Hd Hs]] Hsub. exists d, 1, last. split; auto. Qed.
+
+(* --- poke *)
+Lemma G_poke cf s : Live true cf s -> GInv s -> GInv (poke cf s).
+Proof.
+  intros [HC HL] HG q r w Eq Hrelq Er Ew.
+  pose proof HC as (HS & HN & [A1 A2 A3]). destruct HL as (L1 & L2 & L3 & L4 & L5).
+  rewrite poke_rd in Er. unfold poke in *.
+  destruct (s_rp s) as [p|] eqn:Ep; [|congruence].
+  destruct A3 as (Hfr & Hhs & Hreq & Hnet & Hrd).
+  pose proof (write_message_static cf (s_now s) (s_changes s) p) as Hst.
+  unfold write_message in *. destruct (rp_rel p) eqn:Erel.
+  2:{ destruct (write_be_loop _ _ _ _ _) as [p1 out]. cbn [fst] in Hst. cbn in Eq. injection Eq as <-.
+      apply static_fr in Hst. destruct Hst as (_ & Hr & _). congruence. }
+  destruct (L5 p r w eq_refl Erel Er Ew) as [K1 K2 K3 K4 K5 K6 K7 K8].
+  pose proof (write_rel_live (s_last s) cf (s_now s) (s_changes s) p) as H. rewrite A1 in H.
+  specialize (H A2). rewrite <- A1 in H. specialize (H L2 Hhs K2 Hreq). lazy zeta in H.
+  pose proof (write_rel_an cf (s_now s) (s_changes s) p) as Han.
+  destruct (write_rel cf (s_now s) (s_changes s) p) as [p1 out]. cbn [fst snd] in *. cbn in Eq. injection Eq as <-.
+  destruct H as (W1 & W2 & W3 & W4 & _).
+  apply static_fr in Hst. destruct Hst as (Hfr1 & _).
+  specialize (HG p r w Ep Erel Er Ew). unfold GOk in *. cbn [s_last s_net send set_rp set_net].
+  rewrite Hfr1. cbn [s_rdead set_rp].
+  assert (Hfil : filter (fun d => negb (dg_toR d && s_rdead s)) out = out).
+  { rewrite L3. clear. induction out as [|x t IH]; cbn; [reflexivity|]. rewrite andb_false_r. cbn. f_equal. assumption. }
+  rewrite Hfil.
+  destruct HG as [HD|(G0 & GA & GC)]; [left; exact HD|].
+  destruct (Z.eq_dec (rp_hbc p) (rp_hbc p1)) as [Eh|Nh].
+  - right. rewrite <- Eh, Han. split; [assumption|]. split.
+    + destruct GA as [GA|(d & f & l & Hd & Hs)]; [left; assumption|right]. exists d, f, l. split; [apply in_or_app; left; assumption|assumption].
+    + intros Hp. destruct (GC Hp) as (C1 & (d & Hd & Hk) & C3). split; [assumption|]. split.
+      * exists d. split; [apply in_or_app; left; assumption|assumption].
+      * intros d' b set Hd' Hs'. apply in_app_or in Hd'. destruct Hd' as [Hd'|Hd']; [eapply C3; eassumption|].
+        exfalso. rewrite Forall_forall in W3. destruct (W3 d' Hd') as [_ Hsub]. rewrite Forall_forall in Hsub.
+        specialize (Hsub _ Hs'). exact Hsub.
+  - right. split; [lia|]. split.
+    + right. apply (has_hb_in (rp_hbc p1) (s_last s) out); [apply W4; lia|]. intros d Hd. apply in_or_app. right. assumption.
+    + intros Hp. lia.
+Qed.
+
+(* --- delivery of the i-th queued datagram *)
+Lemma G_deliver cf s i d : Live true cf s -> ShInv s -> GInv s -> s_last s <= 256 ->
+  nth_error (s_net s) i = Some d ->
+  GInv (deliver_dgram cf (set_net s (remove_nth i (s_net s))) d).
+Proof.
+  intros [HC HL] [Hsh Hfrags] HG H256 Ei q r' w' Eq Hrelq Er' Ew'.
+  pose proof HC as (HS & HN & [A1 A2 A3]). destruct HL as (L1 & L2 & L3 & L4 & L5).
+  assert (Hd : In d (s_net s)) by (eapply nth_error_In; eassumption).
+  assert (Hshd : nshape d) by (rewrite Forall_forall in Hsh; auto).
+  set (rest := remove_nth i (s_net s)) in *.
+  assert (Hrest : forall x, In x rest -> In x (s_net s)) by (intros x Hx; eapply remove_nth_in; exact Hx).
+  assert (Hother : forall x, In x (s_net s) -> x <> d -> In x rest) by (intros x Hx Hne; eapply in_remove_nth_other; eassumption).
+  unfold deliver_dgram in *. destruct (dg_toR d) eqn:Edir.
+  - (* towards the reader *)
+    cbn [s_rdead s_rd set_net] in *. rewrite L3 in *.
+    destruct (s_rd s) as [r|] eqn:Er; [|cbn in Er'; congruence].
+    rewrite (L4 r eq_refl) in *.
+    destruct (deliver_subs_R cf r (dg_subs d) []) as [r1 out] eqn:E.
+    cbn [s_rp s_rd send set_rd set_net] in Eq, Er'. injection Er' as <-.
+    destruct (rd_wp r) as [w|] eqn:Ew.
+    2:{ rewrite (deliver_subs_R_nowp cf r (dg_subs d) [] Ew) in E. inversion E; subst. congruence. }
+    destruct (deliver_R_shape cf r w d r1 out Ew (Hfrags r w eq_refl Ew) Hshd Edir E) as (w1 & B1 & B2 & B3 & Hcase).
+    assert (w' = w1) by congruence. subst w'.
+    rewrite Eq in A3. destruct A3 as (Hfr & Hhs & Hreq & Hnet & Hrd).
+    unfold ROk in Hrd. rewrite Ew in Hrd. destruct Hrd as ((R1 & R2 & R3 & R4) & Hrr & Hrc).
+    destruct (L5 q r w Eq Hrelq eq_refl Ew) as [K1 K2 K3 K4 K5 K6 K7 K8].
+    assert (Hlsub : Forall (lsub (rp_hbc q) (s_last s) (wp_an w)) (dg_subs d)).
+    { rewrite Forall_forall in K8. apply (K8 d Hd). }
+    specialize (HG q r w Eq Hrelq Er Ew). unfold GOk in *.
+    cbn [s_last s_net send set_rd set_net s_rdead]. rewrite L3.
+    assert (Hfil : forall o, filter (fun d0 => negb (dg_toR d0 && false)) o = o).
+    { clear. induction o as [|x t IH]; cbn; [reflexivity|]. rewrite andb_false_r. cbn. f_equal. assumption. }
+    rewrite Hfil.
+    destruct HG as [HD|(G0 & GA & GC)]; [left; destruct HD; [left; lia|right; assumption]|].
+    destruct (Z.le_gt_cases (s_last s) (wp_hr w1)) as [Hdone|Hnot]; [left; left; assumption|].
+    destruct (Z.le_gt_cases (s_last s) (rp_fr q)) as [Hdone2|Hnot2]; [left; right; assumption|].
+    right. split; [assumption|].
+    destruct Hcase as [(C1 & C2 & C3 & -> & C5)|(f & l & c & C0 & C1 & C2 & C3 & C4 & ->)].
+    + (* no heartbeat accepted *)
+      rewrite C1, C2, app_nil_r. split.
+      * destruct GA as [GA|(d0 & f0 & l0 & Hd0 & Hs0)]; [left; assumption|].
+        destruct (dgram_eq_dec d0 d) as [->|Hne].
+        -- left. specialize (C5 f0 l0 _ Hs0). lia.
+        -- right. exists d0, f0, l0. split; [apply Hother; assumption|assumption].
+      * intros Hp. destruct (GC Hp) as (D1 & (d0 & Hd0 & Hk0) & D3). split; [assumption|]. split.
+        -- exists d0. split; [|assumption]. apply Hother; [assumption|]. intros ->.
+           destruct Hk0 as [b [set Hk0]]. eapply shape_toR_no_ack; eassumption.
+        -- intros d' b set Hd' Hs'. eapply D3; [apply Hrest; eassumption|eassumption].
+    + (* the heartbeat (f, l, c) of d is accepted *)
+      rewrite Forall_forall in Hlsub. pose proof (Hlsub _ C0) as Hl. cbn in Hl. destruct Hl as (Hf1 & Hc1 & Hc2). subst f.
+      rewrite C2, C3. split.
+      * destruct (Z.eq_dec c (rp_hbc q)) as [->|Hne]; [left; reflexivity|].
+        destruct GA as [GA|(d0 & f0 & l0 & Hd0 & Hs0)]; [lia|]. right. exists d0, f0, l0. split; [|assumption].
+        apply in_or_app. left. apply Hother; [assumption|]. intros ->.
+        destruct (shape_one_hb d _ _ _ _ _ _ Hshd C0 Hs0) as (_ & _ & E3). congruence.
+      * intros Hp. specialize (Hc2 Hp). subst l. split; [lia|]. split.
+        -- eexists. split; [apply in_or_app; right; left; reflexivity|]. eexists _, _. left. reflexivity.
+        -- intros d' b set Hd' Hs'. apply in_app_or in Hd'. destruct Hd' as [Hd'|[<-|[]]].
+           ++ exfalso. destruct (L5 q r w Eq Hrelq eq_refl Ew) as [_ _ _ _ _ _ _ K8'].
+              rewrite Forall_forall in K8'. specialize (K8' d' (Hrest _ Hd')). unfold ldg in K8'. rewrite Forall_forall in K8'.
+              specialize (K8' _ Hs'). cbn in K8'. lia.
+           ++ cbn in Hs'. destruct Hs' as [Hs'|[]]. inversion Hs'; subst.
+              apply ack_set_has_last; try lia; try reflexivity.
+  - (* towards the writer: one ACKNACK *)
+    destruct Hshd; cbn in Edir; try discriminate. cbn [dg_subs toW fold_left] in *.
+    assert (Hrd : s_rd (deliver_sub_W cf (set_net s rest) (SAck b set cnt)) = s_rd s) by (rewrite deliver_sub_W_rd; reflexivity).
+    rewrite Hrd in Er'.
+    unfold deliver_sub_W in *. cbn [s_rp set_net s_now s_changes s_last] in *.
+    destruct (s_rp s) as [p|] eqn:Ep; [|cbn in Eq; congruence].
+    destruct A3 as (Hfr & Hhs & Hreq & Hnet & Hrdk).
+    assert (Hstat : rp_rel p = true).
+    { pose proof (on_acknack_static cf (s_now s) (s_changes s) p b set cnt) as Hst.
+      destruct (on_acknack cf (s_now s) (s_changes s) p b set cnt) as [[p1 o] sm]. cbn [fst] in Hst.
+      apply static_fr in Hst. destruct Hst as (_ & Hr & _).
+      destruct (sm && _); cbn in Eq; injection Eq as <-; congruence. }
+    destruct (L5 p r' w' eq_refl Hstat Er' Ew') as [K1 K2 K3 K4 K5 K6 K7 K8].
+    assert (Hnd : ndg (rp_fr p) (s_last s) (hr_of s) (toW [SAck b set cnt])) by (rewrite Forall_forall in Hnet; auto).
+    unfold ndg in Hnd. cbn in Hnd. apply Forall_inv in Hnd. cbn in Hnd. destruct Hnd as [Hset _].
+    assert (Hld : ldg (rp_hbc p) (s_last s) (wp_an w') (toW [SAck b set cnt])) by (rewrite Forall_forall in K8; auto).
+    unfold ldg in Hld. cbn in Hld. apply Forall_inv in Hld. cbn in Hld. rename Hld into Hcnt.
+    pose proof (on_acknack_G (s_last s) cf (s_now s) (s_changes s) p b set cnt) as H. rewrite A1 in H.
+    specialize (H A2). rewrite <- A1 in H. specialize (H L2 Hstat Hhs K2 Hreq Hset). lazy zeta in H.
+    destruct (on_acknack cf (s_now s) (s_changes s) p b set cnt) as [[p1 out] sm]. cbn [fst snd] in H.
+    destruct H as (W1 & W2 & W2' & W3 & W4 & W5 & W6).
+    assert (Hq : q = p1) by (destruct (sm && _); cbn in Eq; congruence). subst q.
+    apply static_fr in W5. destruct W5 as (Hfr1 & _).
+    specialize (HG p r' w' Ep Hstat Er' Ew'). unfold GOk in *.
+    assert (Hnet' : exists net', s_net (if sm && is_acked (Some p1) (s_last s)
+                   then set_waits (send (set_rp (set_net s rest) (Some p1)) out) (drain (s_waits (send (set_rp (set_net s rest) (Some p1)) out)))
+                   else send (set_rp (set_net s rest) (Some p1)) out) = rest ++ out /\ net' = rest ++ out).
+    { exists (rest ++ out). split; [|reflexivity]. destruct (sm && _); cbn; rewrite L3;
+        (assert (Hfil : forall o, filter (fun d0 => negb (dg_toR d0 && false)) o = o)
+           by (clear; induction o as [|x t IH]; cbn; [reflexivity|]; rewrite andb_false_r; cbn; f_equal; assumption));
+        rewrite Hfil; reflexivity. }
+    destruct Hnet' as (net' & Hnet' & _).
+    assert (Hlast' : s_last (if sm && is_acked (Some p1) (s_last s)
+                   then set_waits (send (set_rp (set_net s rest) (Some p1)) out) (drain (s_waits (send (set_rp (set_net s rest) (Some p1)) out)))
+                   else send (set_rp (set_net s rest) (Some p1)) out) = s_last s) by (destruct (sm && _); reflexivity).
+    rewrite Hnet', Hlast', Hfr1.
+    destruct HG as [HD|(G0 & GA & GC)]; [left; exact HD|].
+    destruct (Z.le_gt_cases (s_last s) (wp_hr w')) as [Hdone|Hnot]; [left; left; assumption|].
+    destruct (Z.le_gt_cases (s_last s) (rp_fr p)) as [Hdone2|Hnot2]; [left; right; assumption|].
+    right.
+    destruct (Z.eq_dec (rp_hbc p) (rp_hbc p1)) as [Eh|Nh].
+    + rewrite <- Eh. split; [assumption|]. split.
+      * destruct GA as [GA|(d0 & f0 & l0 & Hd0 & Hs0)]; [left; assumption|right]. exists d0, f0, l0. split; [|assumption].
+        apply in_or_app. left. apply Hother; [assumption|]. intros ->. cbn in Hs0. destruct Hs0 as [Hs0|[]]. discriminate.
+      * intros Hp. destruct (GC Hp) as (D1 & (d0 & Hd0 & Hk0) & D3).
+        (* the delivered ACKNACK is not the newest one: otherwise it asks for `last` and a heartbeat is generated *)
+        assert (Hne : cnt <> wp_an w').
+        { intros ->. assert (Hin : In (s_last s) set) by (eapply D3; [exact Hd|left; reflexivity]).
+          assert (rp_hbc p < rp_hbc p1); [|lia]. apply W6; [lia|]. exists (s_last s). split; [assumption|lia]. }
+        split; [rewrite W4; destruct (rp_an p <? cnt); lia|]. split.
+        -- exists d0. split; [|assumption]. apply in_or_app. left. apply Hother; [assumption|]. intros ->.
+           destruct Hk0 as [b0 [set0 [Hk0|[]]]]. inversion Hk0; subst. congruence.
+        -- intros d' b' set' Hd' Hs'. apply in_app_or in Hd'. destruct Hd' as [Hd'|Hd']; [eapply D3; [apply Hrest; eassumption|eassumption]|].
+           exfalso. rewrite Forall_forall in W2. destruct (W2 d' Hd') as [_ Hsub]. rewrite Forall_forall in Hsub.
+           specialize (Hsub _ Hs'). exact Hsub.
+    + split; [lia|]. split.
+      * right. apply (has_hb_in (rp_hbc p1) (s_last s) out); [apply W3; lia|]. intros x Hx. apply in_or_app. right. assumption.
+      * intros Hp. lia.
+Qed.
+
+(* ------------------------------------------------------------------ the healing phase *)
+Definition Heal (cf : cfg) (s : state) : Prop := Live true cf s /\ ShInv s /\ GInv s /\ s_last s <= 256.
+
+Lemma Heal_poke cf s : Live true cf s -> ShInv s -> GInv s -> s_last s <= 256 -> Heal cf (poke cf s).
+Proof.
+  intros HL HS HG H256. split; [apply Live_poke with (b := true); assumption|]. split.
+  - apply Sh_poke; [destruct HL as [_ (_ & L2 & _)]; assumption|assumption].
+  - split; [apply G_poke; assumption|]. destruct (core_proj _ _ (poke_core cf s)) as (_ & C2 & _). lia.
+Qed.
+
+Lemma Heal_deliver cf s i d : Heal cf s -> nth_error (s_net s) i = Some d ->
+  Heal cf (poke cf (deliver_dgram cf (set_net s (remove_nth i (s_net s))) d)).
+Proof.
+  intros (HL & HS & HG & H256) E.
+  assert (Hd : In d (s_net s)) by (eapply nth_error_In; eassumption).
+  assert (Hrest : forall x, In x (remove_nth i (s_net s)) -> In x (s_net s)) by (intros x Hx; eapply remove_nth_in; exact Hx).
+  destruct (core_proj _ _ (deliver_dgram_core cf (set_net s (remove_nth i (s_net s))) d)) as (C1 & C2 & _).
+  apply Heal_poke.
+  - apply Live_deliver; assumption.
+  - apply Sh_deliver.
+    + cbn. destruct HL as [_ (_ & L2 & _)]. assumption.
+    + destruct HS as [X Y]. split; [apply Forall_remove_nth; assumption|assumption].
+    + destruct HS as [X _]. rewrite Forall_forall in X. auto.
+  - apply G_deliver; assumption.
+  - rewrite C2. assumption.
+Qed.
+
+Lemma Heal_pump cf fuel : forall s n, Heal cf s -> Heal cf (fst (pump fuel cf s n)).
+Proof.
+  induction fuel as [|f IH]; intros s n H; cbn [pump]; [assumption|].
+  destruct (s_net s) as [|d t] eqn:En; [assumption|].
+  apply IH. pose proof (Heal_deliver cf s 0 d H) as Hd. rewrite En in Hd. cbn in Hd. apply Hd. reflexivity.
+Qed.
+
+Definition is_delivery (a : action) : bool := match a with ADeliver _ | APump => true | _ => false end.
+
+Lemma Heal_step cf s a : is_delivery a = true -> Heal cf s -> Heal cf (fst (step cf s a)).
+Proof.
+  intros Ha H. destruct a; try discriminate; unfold step; cbn [act].
+  - destruct (nth_error (s_net s) i) as [d|] eqn:E; cbn [fst].
+    + exact (Heal_deliver cf s i d H E).
+    + destruct H as (A & B & C & D). apply Heal_poke; assumption.
+  - pose proof (Heal_pump cf pump_fuel s 0 H) as Hp. destruct (pump pump_fuel cf s 0) as [s1 n]. cbn [fst] in *.
+    destruct Hp as (A & B & C & D). apply Heal_poke; assumption.
+Qed.
+
+Lemma Heal_run cf l : forallb is_delivery l = true -> forall s, Heal cf s -> Heal cf (run cf s l).
+Proof.
+  induction l as [|a t IH]; intros Hl s H; [exact H|]. cbn in Hl. apply andb_prop in Hl. destruct Hl as [Ha Ht].
+  rewrite run_cons. apply IH; [assumption|]. apply Heal_step; assumption.
+Qed.
+
+(* at quiescence the healing invariant means: delivered *)
+Lemma Heal_quiescent cf s : Heal cf s -> s_net s = [] -> delivered s.
+Proof.
+  intros ((HC & HL) & HS & HG & H256) Hnet p r w Ep Hrel Er Ew c Hc Hlt.
+  pose proof HC as (HSI & HN & [A1 A2 A3]). rewrite Ep in A3. destruct A3 as (Hfr & Hhs & Hreq & Hnd & Hrd).
+  unfold ROk in Hrd. rewrite Er, Ew in Hrd. destruct Hrd as (R1 & R2 & R3).
+  assert (Hrr : rd_rel r = true) by congruence. destruct (R3 Hrr) as [[Rfa Rcomp] Rha].
+  rewrite A1 in Hc. pose proof (log_sn_bound _ _ c A2 Hc) as Hb.
+  destruct (HG p r w Ep Hrel Er Ew) as [[HD|HD]|(G0 & GA & GC)].
+  - apply Rcomp; [assumption|lia].
+  - lia.
+  - exfalso. rewrite Hnet in *.
+    destruct GA as [GA|(d & f & l & [] & _)].
+    destruct (GC GA) as (_ & (d & [] & _) & _).
+Qed.
+
+(* ------------------------------------------------------------------ five ticks establish the healing invariant *)
+Definition Stale (b : Z) (s : state) : Prop :=
+  forall p r w, s_rp s = Some p -> rp_rel p = true -> s_rd s = Some r -> rd_wp r = Some w ->
+    GOk s p w \/ rp_hbt p <= b.
+
+Definition tick_state (s : state) : state :=
+  mkSt (s_now s + tick_ms) (s_changes s) (s_last s) (s_inst s) (s_log s) (s_rp s) (s_dcps s) (s_waits s)
+       (s_rd s) (s_rdead s) (s_net s).
+
+Lemma step_tick cf s : fst (step cf s ATick) = poke cf (tick_state s).
+Proof. reflexivity. Qed.
+
+Lemma Live_tick_state cf s : depth cf = 0 -> Live true cf s -> Live true cf (tick_state s).
+Proof.
+  intros Hd [HC HL]. split.
+  - apply (CInv_act cf s ATick Hd eq_refl HC).
+  - eapply LInv_ext; [exact HL|cbn; unfold tick_ms; lia|reflexivity|reflexivity|reflexivity|reflexivity|reflexivity|].
+    intros r' Hr'. exists r'. auto.
+Qed.
+
+Lemma tick_stale cf s b : depth cf = 0 -> Live true cf s -> ShInv s -> Stale b s ->
+  Stale b (fst (step cf s ATick)) /\ (hb_period <= s_now s + tick_ms - b -> GInv (fst (step cf s ATick))).
+Proof.
+  intros Hd HL HSh HSt. rewrite step_tick.
+  pose proof (Live_tick_state cf s Hd HL) as HL1. set (s1 := tick_state s) in *.
+  assert (Key : forall q r w, s_rp (poke cf s1) = Some q -> rp_rel q = true -> s_rd (poke cf s1) = Some r -> rd_wp r = Some w ->
+            GOk (poke cf s1) q w \/ (rp_hbt q <= b /\ ~ hb_period <= s_now s + tick_ms - b)).
+  { intros q r w Eq Hrelq Er Ew. rewrite poke_rd in Er.
+    pose proof HL1 as [HC1 (L1 & L2 & L3 & L4 & L5)]. pose proof HC1 as (HS1 & HN1 & [A1 A2 A3]).
+    destruct (s_rp s1) as [p|] eqn:Ep; [|rewrite poke_rp_none in Eq by assumption; congruence].
+    destruct (poke_rp_some cf s1 p Ep) as [q' [Eq' Hst]]. assert (q' = q) by congruence. subst q'.
+    apply static_fr in Hst. destruct Hst as (Hfr1 & Hrel1 & _).
+    assert (Hrel : rp_rel p = true) by congruence.
+    destruct (HSt p r w Ep Hrel Er Ew) as [HG|Hb].
+    - left. assert (HG1 : GInv s1).
+      { intros p2 r2 w2 E2 _ Er2 Ew2. assert (p2 = p) by congruence. assert (r2 = r) by congruence. subst p2 r2.
+        assert (w2 = w) by congruence. subst w2. exact HG. }
+      apply (G_poke cf s1 HL1 HG1 q r w); try assumption. rewrite poke_rd. assumption.
+    - destruct A3 as (Hfr & Hhs & Hreq & Hnet & Hrd). unfold ROk in Hrd. rewrite Er, Ew in Hrd.
+      destruct Hrd as (R1 & R2 & R3). assert (Hrr : rd_rel r = true) by congruence. destruct (R3 Hrr) as [_ Rha].
+      destruct (L5 p r w eq_refl Hrel Er Ew) as [K1 K2 K3 K4 K5 K6 K7 K8].
+      destruct (Z.le_gt_cases (s_last s1) (wp_hr w)) as [HD|HnD].
+      { left; left; left. destruct (core_proj _ _ (poke_core cf s1)) as (_ & C2 & _). rewrite C2. exact HD. }
+      unfold poke in Eq. rewrite Ep in Eq. unfold write_message in Eq. rewrite Hrel in Eq.
+      pose proof (write_rel_live (s_last s1) cf (s_now s1) (s_changes s1) p) as H. rewrite A1 in H.
+      specialize (H A2). rewrite <- A1 in H. specialize (H L2 Hhs K2 Hreq). lazy zeta in H.
+      unfold poke. rewrite Ep. unfold write_message. rewrite Hrel.
+      destruct (write_rel cf (s_now s1) (s_changes s1) p) as [p1 out]. cbn [fst snd] in *. cbn in Eq. injection Eq as <-.
+      destruct H as (W1 & W2 & W3 & W4 & W5 & _ & W7 & _).
+      destruct W5 as [[Eh Et]|[Hlt Et]].
+      + right. split; [lia|]. intros Hdue. assert (rp_hbc p < rp_hbc p1); [|lia].
+        apply W7; [apply K1; reflexivity|lia|]. cbn [s_now s1 tick_state]. lia.
+      + left. right. cbn [s_net s_last send set_rp]. split; [lia|]. split.
+        * right. apply (has_hb_in (rp_hbc p1) (s_last s1) out); [apply W4; assumption|].
+          intros x Hx. apply in_or_app. right. apply filter_In. split; [assumption|]. cbn [s_rdead set_rp]. rewrite L3, andb_false_r. reflexivity.
+        * intros Hp. lia. }
+  split.
+  - intros q r w Eq Hrelq Er Ew. destruct (Key q r w Eq Hrelq Er Ew) as [H|[H _]]; [left|right]; assumption.
+  - intros Hdue q r w Eq Hrelq Er Ew. destruct (Key q r w Eq Hrelq Er Ew) as [H|[_ H]]; [assumption|contradiction].
+Qed.
+
+Lemma Stale_init cf s : Live true cf s -> Stale (s_now s) s.
+Proof.
+  intros [_ (_ & _ & _ & _ & L5)] p r w Ep Hrel Er Ew. right. destruct (L5 p r w Ep Hrel Er Ew). assumption.
+Qed.
+
+Lemma ShInv_run cf l : 0 < fsz cf -> depth cf = 0 -> forallb (live_act cf) l = true ->
+  forall s, unfrag cf (s_changes s) -> ShInv s -> ShInv (run cf s l) /\ unfrag cf (s_changes (run cf s l)).
+Proof.
+  intros Hf Hd. induction l as [|a t IH]; intros Hl s Hu H; [split; assumption|]. cbn in Hl. apply andb_prop in Hl.
+  destruct Hl as [Ha Ht]. rewrite run_cons. destruct (Sh_step cf s a Hf Hd Ha Hu H) as [H1 H2]. apply IH; assumption.
+Qed.
+
+Definition five_ticks : list action := [ATick; ATick; ATick; ATick; ATick].
+
+Lemma five_ticks_heal cf s : 0 < fsz cf -> depth cf = 0 -> Live true cf s -> ShInv s -> s_last s <= 256 ->
+  Heal cf (run cf s five_ticks).
+Proof.
+  intros Hf Hd HL HS H256.
+  assert (Step : forall s0 b, Live true cf s0 -> ShInv s0 -> Stale b s0 ->
+            let s1 := fst (step cf s0 ATick) in
+            Live true cf s1 /\ ShInv s1 /\ Stale b s1 /\ s_now s1 = s_now s0 + tick_ms /\ s_last s1 = s_last s0 /\
+            (hb_period <= s_now s0 + tick_ms - b -> GInv s1)).
+  { intros s0 b HL0 HS0 HSt0. cbn zeta.
+    destruct (tick_stale cf s0 b Hd HL0 HS0 HSt0) as [T1 T2].
+    split; [apply Live_step; [assumption|assumption|reflexivity|assumption]|].
+    split; [apply (Sh_step cf s0 ATick Hf Hd eq_refl); [destruct HL0 as [_ (_ & L2 & _)]; assumption|assumption]|].
+    split; [assumption|]. rewrite step_tick.
+    destruct (core_proj _ _ (poke_core cf (tick_state s0))) as (_ & C2 & _ & _ & C5).
+    split; [rewrite C5; reflexivity|]. split; [rewrite C2; reflexivity|]. rewrite <- step_tick. assumption. }
+  unfold five_ticks. rewrite !run_cons. cbn [run run_out fst].
+  destruct (Step s (s_now s) HL HS (Stale_init cf s HL)) as (L1 & S1 & T1 & N1 & E1 & _).
+  destruct (Step _ (s_now s) L1 S1 T1) as (L2 & S2 & T2 & N2 & E2 & _).
+  destruct (Step _ (s_now s) L2 S2 T2) as (L3 & S3 & T3 & N3 & E3 & _).
+  destruct (Step _ (s_now s) L3 S3 T3) as (L4 & S4 & T4 & N4 & E4 & G4).
+  assert (HG4 : GInv (fst (step cf (fst (step cf (fst (step cf (fst (step cf s ATick)) ATick)) ATick)) ATick))).
+  { apply G4. unfold hb_period, tick_ms in *. lia. }
+  set (s4 := fst (step cf (fst (step cf (fst (step cf (fst (step cf s ATick)) ATick)) ATick)) ATick)) in *.
+  (* the fifth tick keeps it *)
+  assert (HSt4 : Stale (s_now s4 - 1000) s4).
+  { intros p r w Ep Hrel Er Ew. left. exact (HG4 p r w Ep Hrel Er Ew). }
+  destruct (Step s4 (s_now s4 - 1000) L4 S4 HSt4) as (L5 & S5 & T5 & N5 & E5 & G5).
+  split; [assumption|]. split; [assumption|]. split; [apply G5; unfold hb_period, tick_ms; lia|]. lia.
+Qed.
+
+Lemma ShInv_init : ShInv init.
+Proof. split; [constructor|]. intros r w Hr. discriminate. Qed.
+
+(* LIVENESS, stage 1.  KEEP_ALL writer, every sample fits one DATA submessage, no removal from the
+   history cache, the reader is not deleted, at most 256 samples written: after ANY schedule of that
+   class (all faults), one heartbeat period (five ticks of the worker) and ANY loss-free delivery
+   sequence (individual deliveries in any order and FIFO pumps), whenever nothing is queued any more
+   the RELIABLE matched reader has been given every relevant change the writer holds. *)
+Theorem reliable_liveness_unfragmented cf sched dels :
+  0 < fsz cf -> depth cf = 0 ->
+  forallb (live_act cf) sched = true -> forallb is_delivery dels = true ->
+  let s := run cf init (sched ++ five_ticks ++ dels) in
+  s_last s <= 256 -> s_net s = [] -> delivered s.
+Proof.
+  intros Hf Hd Hs Hdel s H256 Hnet. subst s. rewrite run_app, run_app in *.
+  set (s0 := run cf init sched) in *.
+  assert (HL0 : Live true cf s0) by (apply Live_run; [assumption|assumption|assumption|apply Live_init]).
+  destruct (ShInv_run cf sched Hf Hd Hs init) as [HS0 _]; [intros c []|apply ShInv_init|]. fold s0 in HS0.
+  assert (Hlast : s_last s0 <= 256).
+  { pose proof (run_last cf dels (run cf s0 five_ticks)). pose proof (run_last cf five_ticks s0). lia. }
+  pose proof (five_ticks_heal cf s0 Hf Hd HL0 HS0 Hlast) as H5.
+  pose proof (Heal_run cf dels Hdel _ H5) as Hend.
+  apply (Heal_quiescent cf _ Hend Hnet).
+Qed.
+
+(* the same with the scenario vocabulary: k + 1 healing rounds (250 ms, FIFO pump), quiescent at the end *)
+Lemma heal_snoc k : heal (S k) = heal k ++ heal_round.
+Proof.
+  induction k as [|k IH]; [reflexivity|].
+  change (heal (S (S k))) with (heal_round ++ heal (S k)). rewrite IH at 1.
+  change (heal (S k)) with (heal_round ++ heal k). rewrite app_assoc. reflexivity.
+Qed.
+
+Lemma heal_live cf k : forallb (live_act cf) (heal k) = true.
+Proof. induction k as [|k IH]; [reflexivity|]. cbn. exact IH. Qed.
+
+Theorem reliable_liveness_heal cf sched k :
+  0 < fsz cf -> depth cf = 0 -> forallb (live_act cf) sched = true ->
+  let s := run cf init (sched ++ heal (S k)) in
+  s_last s <= 256 -> s_net s = [] -> delivered s.
+Proof.
+  intros Hf Hd Hs. rewrite heal_snoc.
+  replace (sched ++ heal k ++ heal_round) with ((sched ++ heal k) ++ five_ticks ++ [APump])
+    by (rewrite <- !app_assoc; reflexivity).
+  apply reliable_liveness_unfragmented; try assumption; [|reflexivity].
+  rewrite forallb_app, Hs, heal_live. reflexivity.
+Qed.
+
+(* for a TRANSIENT_LOCAL reader proxy every held change is relevant *)
+Lemma tl_fr_zero cf l : forall s,
+  (forall p, s_rp s = Some p -> rp_tl p = true -> rp_fr p = 0) ->
+  forall p, s_rp (run cf s l) = Some p -> rp_tl p = true -> rp_fr p = 0.
+Proof.
+  induction l as [|a t IH]; intros s H; [exact H|]. rewrite run_cons. apply IH.
+  intros q Eq Htl. unfold step in Eq.
+  assert (Hact : forall q', s_rp (fst (act cf s a)) = Some q' -> rp_tl q' = true -> rp_fr q' = 0).
+  { destruct a; cbn [act].
+    - pose proof (do_write_frame cf s key len sum) as (F1 & _). destruct (do_write cf s key len sum) as [s1 code].
+      cbn [fst] in *. rewrite F1. exact H.
+    - cbn. exact H.
+    - cbn. exact H.
+    - destruct (nth_error (s_net s) i) as [d|]; [|exact H]. cbn [fst]. intros q' Eq' Htl'.
+      destruct (s_rp s) as [p|] eqn:Ep.
+      + destruct (deliver_dgram_rp cf (set_net s (remove_nth i (s_net s))) d p Ep) as [q2 [E2 Hst]].
+        assert (q2 = q') by congruence. subst q2. apply static_fr in Hst. destruct Hst as (A & _ & C).
+        rewrite A. apply H; [reflexivity|congruence].
+      + rewrite (deliver_dgram_rp_none cf (set_net s (remove_nth i (s_net s))) d Ep) in Eq'. discriminate.
+    - destruct (nth_error (s_net s) i); cbn; exact H.
+    - destruct (nth_error (s_net s) i) as [d|]; [|exact H]. cbn [fst]. intros q' Eq' Htl'.
+      destruct (s_rp s) as [p|] eqn:Ep.
+      + destruct (deliver_dgram_rp cf (set_net s (remove_nth i (s_net s))) d p Ep) as [q2 [E2 Hst]].
+        destruct (poke_rp_some cf _ q2 E2) as [q3 [E3 Hst3]].
+        destruct (deliver_dgram_rp cf _ d q3 E3) as [q4 [E4 Hst4]].
+        assert (q4 = q') by congruence. subst q4.
+        apply static_fr in Hst. apply static_fr in Hst3. apply static_fr in Hst4.
+        destruct Hst as (A & _ & C). destruct Hst3 as (A3 & _ & C3). destruct Hst4 as (A4 & _ & C4).
+        rewrite A4, A3, A. apply H; [reflexivity|congruence].
+      + assert (E1 : s_rp (deliver_dgram cf (set_net s (remove_nth i (s_net s))) d) = None) by (apply deliver_dgram_rp_none; exact Ep).
+        rewrite (poke_rp_none cf _ E1) in Eq'. rewrite (deliver_dgram_rp_none cf _ d E1) in Eq'. discriminate.
+    - intros q' Eq' Htl'. destruct (s_rp s) as [p|] eqn:Ep.
+      + pose proof (pump_rp cf pump_fuel s 0 p Ep) as Hp. destruct (pump pump_fuel cf s 0) as [s1 n]. cbn [fst] in *.
+        destruct Hp as [q2 [E2 Hst]]. assert (q2 = q') by congruence. subst q2.
+        apply static_fr in Hst. destruct Hst as (A & _ & C). rewrite A. apply H; [reflexivity|congruence].
+      + assert (Hn : forall fuel s0 n, s_rp s0 = None -> s_rp (fst (pump fuel cf s0 n)) = None).
+        { induction fuel as [|f IHf]; intros s0 n E0; cbn [pump]; [assumption|].
+          destruct (s_net s0) as [|d t0]; [assumption|]. apply IHf.
+          assert (E1 : s_rp (deliver_dgram cf (set_net s0 t0) d) = None) by (apply deliver_dgram_rp_none; exact E0).
+          rewrite (poke_rp_none cf _ E1). exact E1. }
+        rewrite (Hn pump_fuel s 0 Ep) in Eq'. discriminate.
+    - destruct (s_rd s) as [r|]; [destruct (rd_alive r)|]; cbn; exact H.
+    - destruct (s_rd s); [exact H|]. destruct (s_rdead s || _) eqn:Eb; [exact H|].
+      destruct (rxo_ok cf rel tl); cbn [fst]; [|cbn; exact H].
+      intros q' Eq' Htl'.
+      match type of Eq' with s_rp (poke cf ?st) = _ => destruct (poke_rp_some cf st _ eq_refl) as [q2 [E2 Hst]] end.
+      assert (q2 = q') by congruence. subst q2. apply static_fr in Hst. destruct Hst as (A & _ & C).
+      rewrite A. cbn in *. rewrite C in Htl'. rewrite Htl'. reflexivity.
+    - cbn. intros q' Eq'. discriminate.
+    - cbn. intros q' Eq'. discriminate.
+    - destruct (is_acked _ _); cbn; exact H.
+    - destruct (poll (s_waits s)). cbn. exact H.
+    - destruct (s_rd s) as [r|]; [|exact H]. destruct (negb (rd_alive r)); [exact H|].
+      destruct (negb (rd_tl r)); [exact H|]. destruct (hist_received _); cbn; exact H.
+    - destruct (s_rd s) as [r|]; [|exact H]. destruct (poll (rd_hwaits r)). cbn. exact H.
+    - exact H.
+    - exact H. }
+  destruct (act cf s a) as [s1 o]. cbn [fst] in *.
+  destruct (s_rp s1) as [p1|] eqn:E1; [|rewrite (poke_rp_none cf s1 E1) in Eq; congruence].
+  destruct (poke_rp_some cf s1 p1 E1) as [q2 [E2 Hst]]. assert (q2 = q) by congruence. subst q2.
+  apply static_fr in Hst. destruct Hst as (A & _ & C). rewrite A. apply Hact; [reflexivity|congruence].
+Qed.
+
+(* HISTORY, stage 1: a reliable TRANSIENT_LOCAL reader (late or not) ends up with EVERY change the writer
+   retains *)
+Theorem transient_local_history_unfragmented cf sched k :
+  0 < fsz cf -> depth cf = 0 -> forallb (live_act cf) sched = true ->
+  let s := run cf init (sched ++ heal (S k)) in
+  s_last s <= 256 -> s_net s = [] ->
+  forall p r w, s_rp s = Some p -> rp_rel p = true -> rp_tl p = true -> s_rd s = Some r -> rd_wp r = Some w ->
+    forall c, In c (s_changes s) -> In c (rd_pres r).
+Proof.
+  intros Hf Hd Hs s H256 Hnet p r w Ep Hrel Htl Er Ew c Hc.
+  pose proof (reliable_liveness_heal cf sched k Hf Hd Hs H256 Hnet) as Hdel.
+  apply (Hdel p r w Ep Hrel Er Ew c Hc).
+  assert (Hfr : rp_fr p = 0).
+  { apply (tl_fr_zero cf (sched ++ heal (S k)) init); [intros q Hq; discriminate|exact Ep|exact Htl]. }
+  rewrite Hfr.
+  assert (HC : CInv s).
+  { apply CInv_run; [assumption| |apply CInv_init]. rewrite forallb_app.
+    assert (X : forall l, forallb (live_act cf) l = true -> forallb not_remove l = true).
+    { induction l as [|a t IH]; [reflexivity|]. cbn. intros H. apply andb_prop in H. destruct H as [H1 H2].
+      rewrite (live_not_remove cf a H1), (IH H2). reflexivity. }
+    rewrite (X sched Hs), (X _ (heal_live cf (S k))). reflexivity. }
+  destruct HC as (_ & _ & [A1 A2 _]). rewrite A1 in Hc. pose proof (log_sn_bound _ _ c A2 Hc). lia.
+Qed.
